@@ -9,7 +9,7 @@ from hypothesis import strategies as st
 
 from .. import gen, model, schema
 from ..cliutil import run_cli
-from ..core import Ctx, Violation, call, check, must_raise, per_shard, run_given
+from ..core import Ctx, Violation, call, check, must_raise, per_shard, run_given, given_part, machine_part, run_parts
 
 PID = "C09"
 LEVEL = "exploration"
@@ -439,6 +439,7 @@ def replay(ctx: Ctx, case):
 
 def run(ctx: Ctx):
     q = ctx.tier == "quick"
-    if not run_given(ctx, "zoom", zoom_cases(), check_zoom, per_shard(ctx, 640 if q else 24000), batch=40):
-        return
-    run_given(ctx, "cli", cli_cases(), check_cli, per_shard(ctx, 144 if q else 4000), batch=18)
+    parts = []
+    parts.append(given_part(ctx, "zoom", zoom_cases(), check_zoom, per_shard(ctx, 640 if q else 24000), batch=40))
+    parts.append(given_part(ctx, "cli", cli_cases(), check_cli, per_shard(ctx, 144 if q else 4000), batch=18))
+    run_parts(ctx, parts)
